@@ -29,7 +29,7 @@ pub struct ExopResult(pub Exop, pub LdapResult);
 pub enum LdapError { LdapResult { result: LdapResult }, Other(u8) }
 impl LdapError { pub fn from(r: LdapResult) -> (e: LdapError) ensures e == (LdapError::LdapResult { result: r }) { LdapError::LdapResult { result: r } } }
 pub type Result<T> = core::result::Result<T, LdapError>;
-pub enum Types { Eoc = 0, Boolean = 1, Integer = 2, BitString = 3, OctetString = 4, Null = 5, Enumerated = 10, Sequence = 16, Set = 17 }
+//@include contracts/shared/lift_types_enum.rs
 pub struct NomErr { pub incomplete: bool }
 pub uninterp spec fn be_uint(s: Seq<u8>) -> u64;
 #[verifier::external_body]
